@@ -714,6 +714,27 @@ fn run_freshness(scn: &FScn) -> Result<(Vec<(String, String, String)>, u64, u64)
                 }
             }
         }
+        // supplementary (not replayable): thread-per-request — short-lived threads on the same
+        // context, one after another (never alive together); each thread's first outputs must still
+        // differ from every other thread's
+        {
+            let enc = Arc::new(Encryptor::new(sh.world.ctx.clone()).set_secret_key(sh.world.sk.clone()).set_public_key(sh.world.pk.clone()));
+            let big = scn.spec.n >= 32;
+            for k in 0..6 {
+                let enc = enc.clone();
+                let ctx2 = sh.world.ctx.clone();
+                let h = std::thread::spawn(move || {
+                    let secret = if big { Some(util::h64_u64s(KeyGenerator::new(ctx2.clone()).secret_key().data())) } else { None };
+                    let c = enc.encrypt_zero_symmetric_new();
+                    let a = enc.encrypt_zero_new();
+                    (secret, seed_words(&c), mask_hash(&c, &ctx2), if big { Some(mask_hash(&a, &ctx2)) } else { None })
+                });
+                let (secret, sw, mh, amh) = h.join().map_err(|_| "short-lived thread panicked".to_string())?;
+                let mut masks = vec![mh];
+                masks.extend(amh);
+                all.push((20 + k, 0, Produced { what: "first operations of a short-lived thread (thread per request, OS entropy)".into(), masks, seeds: sw.into_iter().collect(), secret, pair: None, noise: None, same_c0: None, expand_diff: None }));
+            }
+        }
         // the two long-lived key generators themselves
         if scn.spec.n >= 32 {
             let (a, b) = (util::h64_u64s(sh.world.sk.data()), util::h64_u64s(sh_b.world.sk.data()));
